@@ -649,3 +649,118 @@ def resolveTmax (o : L3) : L3 :=
 def scriptToDict (o : L3) : Json := toDictG scriptFields [] none systemToDict (resolveTmax o)
 
 end Strengths.Dict
+
+namespace Strengths.Dict
+open Strengths Strengths.Gen
+
+/-! ## trajectories: `save_rdtrajectory` / `load_rdtrajectory` over the virtual file system
+
+A trajectory file lives in directory `dir` under the name `stem ++ ".json"`; with `separate_data` the samples go to
+`stem ++ "_data.npy"` in the same directory and the JSON refers to that file by its bare name. -/
+
+structure Traj where
+  data : UArr
+  t : UArr
+  system : L2
+  script : Option L3
+  engineDescription : Option String
+  engineOption : Option String
+  cgmap : Option (List Int)
+
+def optStrJson : Option String → Json
+  | none => .null
+  | some s => .str s
+
+def scriptJson : Option L3 → Json
+  | none => .null
+  | some s => scriptToDict s
+
+/-- the "data" entry: the samples inline, or the name of the separate array file -/
+def dataJson (data : UArr) : Option String → Json
+  | some name => .obj [("value", .str name), ("units", .str (showUnits data.u))]
+  | none => writeUArr data
+
+def cgEntries : Option (List Int) → KV
+  | none => []
+  | some l => [("cgmap", .arr (l.map fun (n : Int) => .num (n : Rat)))]
+
+/-- the unconditional entries of the saved dictionary (`dj` = the "data" entry) -/
+def trajEntries (tr : Traj) (dj : Json) : KV :=
+  [("script", scriptJson tr.script), ("system", systemToDict tr.system), ("data", dj), ("t_sample", writeUArr tr.t),
+   ("engine_description", optStrJson tr.engineDescription), ("engine_option", optStrJson tr.engineOption)]
+
+/-- the dictionary `save_rdtrajectory` dumps; `dataRef` = name of the separate data file, if any -/
+def trajToDict (tr : Traj) (dataRef : Option String) : Json :=
+  .obj (trajEntries tr (dataJson tr.data dataRef) ++ cgEntries tr.cgmap)
+
+def jsonName (stem : String) : String := stem ++ ".json"
+def dataName (stem : String) : String := stem ++ "_data.npy"
+
+/-- the files written by `save_rdtrajectory(tr, dir/stem[.json], separate_data)` -/
+def saveTrajectory (tr : Traj) (dir stem : String) (separate : Bool) : List (String × Json) :=
+  if separate then
+    [(joinPath dir (dataName stem), .arr (tr.data.vs.map .num)),
+     (joinPath dir (jsonName stem), trajToDict tr (some (dataName stem)))]
+  else [(joinPath dir (jsonName stem), trajToDict tr none)]
+
+/-- the file system after writing `files` -/
+def fsWith (fs : FS) (files : List (String × Json)) : FS := fun p => (files.lookup p).or (fs p)
+
+def optStrOf : Json → Res (Option String)
+  | .null => .ok none
+  | .str s => .ok (some s)
+  | _ => .error .typeError
+
+/-- `None if d.get("script") is None else rdscript_from_dict(d["script"], base)` -/
+def scriptEntry (dir : String) (fs : FS) (j : Option Json) : Res (Option L3) :=
+  match j.getD .null with
+  | .null => .ok none
+  | j' => (scriptFromDict (some dir) fs j').map some
+
+/-- `d.get("cgmap", None)` -/
+def cgmapEntry : Option Json → Res (Option (List Int))
+  | none => .ok none
+  | some .null => .ok none
+  | some (.arr l) => (readInts l).map some
+  | some _ => .error .typeError
+
+/-- `unitarray_from_dict(d[k], base)` (`KeyError` when the key is missing) -/
+def uarrEntry (base : Option String) (fs : FS) : Option Json → Res UArr
+  | some (.obj kv) => readUArrDict base fs kv
+  | some _ => .error .typeError
+  | none => .error .badKey
+
+def strEntry : Option Json → Res (Option String)
+  | some j => optStrOf j
+  | none => .error .badKey
+
+/-- `load_rdtrajectory(dir/file)` : base path of every relative path inside = `dir` -/
+def loadTrajectory (fs : FS) (dir file : String) : Res Traj :=
+  match fs (joinPath dir file) with
+  | some (.obj d) =>
+    match scriptEntry dir fs (d.lookup "script") with
+    | .error e => .error e
+    | .ok sc =>
+      match (match d.lookup "system" with
+             | some sj => systemFromDict Sys.default (some dir) fs sj
+             | none => .error .badKey) with
+      | .error e => .error e
+      | .ok sy =>
+        match uarrEntry (some dir) fs (d.lookup "data") with
+        | .error e => .error e
+        | .ok da =>
+          match uarrEntry none fs (d.lookup "t_sample") with
+          | .error e => .error e
+          | .ok ts =>
+            match strEntry (d.lookup "engine_description") with
+            | .error e => .error e
+            | .ok ed =>
+              match strEntry (d.lookup "engine_option") with
+              | .error e => .error e
+              | .ok eo =>
+                match cgmapEntry (d.lookup "cgmap") with
+                | .error e => .error e
+                | .ok cg => .ok ⟨da, ts, sy, sc, ed, eo, cg⟩
+  | _ => .error .badValue
+
+end Strengths.Dict
